@@ -794,27 +794,31 @@ class IDManager:
     ):
         if upload_time is None:
             upload_time = datetime.now()
-        info = self.get_info(id)
-        if info is None:
-            return
-        with closing(self.conn.cursor()) as cursor:
-            cursor.execute(
-                f"""INSERT INTO upload
-                    (id, description, size, terminal, upload_time)
-                    VALUES (?, ?, ?, ?, ?)
-                    ON CONFLICT(id, terminal) DO UPDATE SET
-                        description=excluded.description,
-                        size=excluded.size,
-                        upload_time=excluded.upload_time
-                """,
-                (
-                    id,
-                    info.description,
-                    size,
-                    terminal,
-                    upload_time.isoformat(),
-                ),
-            )
+        # Read the current description and record the upload in one transaction, so
+        # that a concurrent reassignment of the id cannot slip in between.
+        with self.conn:
+            self.conn.execute("BEGIN IMMEDIATE")
+            info = self.get_info(id)
+            if info is None:
+                return
+            with closing(self.conn.cursor()) as cursor:
+                cursor.execute(
+                    f"""INSERT INTO upload
+                        (id, description, size, terminal, upload_time)
+                        VALUES (?, ?, ?, ?, ?)
+                        ON CONFLICT(id, terminal) DO UPDATE SET
+                            description=excluded.description,
+                            size=excluded.size,
+                            upload_time=excluded.upload_time
+                    """,
+                    (
+                        id,
+                        info.description,
+                        size,
+                        terminal,
+                        upload_time.isoformat(),
+                    ),
+                )
 
     def cleanup_uploads(
         self,
